@@ -387,6 +387,15 @@ def export_3MF(mesh, batch_size=4096, compression=zipfile.ZIP_DEFLATED, compress
                         }
                         with xf.element("object", **attribs):
                             with xf.element("components"):
+                                # a node with children may also instance a mesh itself
+                                for _, _, data in graph.in_edges(node, data=True):
+                                    if "geometry" in data:
+                                        xf.write(
+                                            etree.Element(
+                                                "component",
+                                                {"objectid": model_id(data["geometry"])},
+                                            )
+                                        )
                                 for next, data in graph[node].items():
                                     transform = " ".join(
                                         str(i)
@@ -398,8 +407,10 @@ def export_3MF(mesh, batch_size=4096, compression=zipfile.ZIP_DEFLATED, compress
                                         etree.Element(
                                             "component",
                                             {
+                                                # only a leaf can be replaced by its mesh
                                                 "objectid": model_id(data["geometry"])
                                                 if "geometry" in data
+                                                and len(graph[next]) == 0
                                                 else model_id(next),
                                                 "transform": transform,
                                             },
@@ -415,11 +426,17 @@ def export_3MF(mesh, batch_size=4096, compression=zipfile.ZIP_DEFLATED, compress
                             str(i) for i in np.array(data["matrix"])[:3, :4].T.flatten()
                         )
                         uuid_tag = "{{{}}}UUID".format(model_nsmap["p"])
+                        if "geometry" in data and len(graph[node]) == 0:
+                            # a leaf node is not written as an object of
+                            # its own so reference the mesh it instances
+                            objectid = model_id(data["geometry"])
+                        else:
+                            objectid = model_id(node)
                         xf.write(
                             etree.Element(
                                 "item",
                                 {
-                                    "objectid": model_id(node),
+                                    "objectid": objectid,
                                     "transform": transform,
                                     uuid_tag: str(uuid.uuid4()),
                                 },
